@@ -414,6 +414,8 @@ def rule_ret3(ctx: Ctx) -> RuleResult:
     # accepting return it was either taken from them or found among them
     if assigns and d2t_node is not None:
         tvar0 = norm(assigns[0].targets[0])
+        # the names the old type goes by: the parameter and the locals it is copied to
+        old_type_names = {tvar0, P["type"]} | {d.var for d in type_alias}
         through = [cfg.node_of(a).id for a in assigns if cfg.node_of(a) is not None]
         from ..shape import _atomise, _norm_fact
 
@@ -441,7 +443,7 @@ def rule_ret3(ctx: Ctx) -> RuleResult:
                 alts = disjuncts(t.ast.test, label == "true")
                 ok_all = bool(alts)
                 for alt in alts:
-                    validating = (f"{tvar0} in {NT}", True) in alt
+                    validating = any((f"{nm_} in {NT}", True) in alt for nm_ in old_type_names)
                     infeasible = any(txt in (f"len({NT}) > 1", f"len({NT}) >= 2") and not tr for txt, tr in alt) and (NT, True) in known \
                         and (f"len({NT}) == 1", False) in known
                     contradiction = any((txt, not tr) in known for txt, tr in alt)
@@ -471,7 +473,7 @@ def rule_ret3(ctx: Ctx) -> RuleResult:
         elif one:
             res.ok(f"apply_query: `{norm(a)}` under exactly one fitting type", "the single new type is taken")
         elif many:
-            kept = (f"{tvar} in {NT}", False) in facts
+            kept = any((f"{nm_} in {NT}", False) in facts for nm_ in {tvar, P["type"]} | {d.var for d in type_alias})
             search_nodes = [(e, truth) for e, truth in _fact_nodes(ctx, f, a) if truth and any(
                 isinstance(x, ast.Attribute) and x.attr == "search_symbols" for x in ast.walk(e))]
             # the search test asks whether a symbol IS in the text
@@ -493,7 +495,39 @@ def rule_ret3(ctx: Ctx) -> RuleResult:
                                   f"apply_query: the search test looks at {sorted(ps)} only; a search symbol given in the query (or in the "
                                   f"string) is not seen and the query is refused", f.relpath, a.lineno)
         else:
-            res.violation([f.qualname, norm(a), "unguarded"], f"apply_query: `{norm(a)}` is not under a len(new_types) decision", f.relpath, a.lineno)
+            # the decision spelled with disjunctions (`if len == 1 or <search>:` after `if len > 1 and type in types:`): every way
+            # of reaching the assignment is 'exactly one fitting type' or 'old type not among them, and a search'
+            from ..shape import alternatives as _alts
+
+            combos = [[]]
+            for t_, lab_ in ctx.ef._dominating_tests(cfg, a):
+                combos = [c_ + alt_ for c_ in combos for alt_ in _alts(t_, lab_ == "true")][:128]
+            names_ = {tvar, P["type"]} | {d.var for d in type_alias}
+            bad_alt = None
+            tests_ = [t_ for t_, _ in ctx.ef._dominating_tests(cfg, a)]
+            s_nodes = [x for t_ in tests_ for x in ast.walk(t_) if isinstance(x, ast.Call) and dotted(x.func) == "any" and any(
+                isinstance(y, ast.Attribute) and y.attr == "search_symbols" for y in ast.walk(x))]
+            for c_ in combos:
+                alt_ = set(c_) | set(facts)
+                if any((txt, not tr) in alt_ for txt, tr in alt_):
+                    continue  # contradictory: not a way of getting here
+                one_ = (f"len({NT}) == 1", True) in alt_ or ((f"len({NT}) > 1", False) in alt_ and (NT, True) in alt_)
+                kept_ = any((f"{nm_} in {NT}", False) in alt_ for nm_ in names_)
+                search_ = any(tr and "search_symbols" in txt and " not in " not in txt for txt, tr in alt_)
+                if not (one_ or (kept_ and search_)):
+                    bad_alt = c_
+                    break
+            ps = set().union(*[_params_behind(ctx, f, x, cfg.node_of(a).id) for x in s_nodes]) if s_nodes else set()
+            if len(combos) > 1 and bad_alt is None and s_nodes and {P["string"], P["query"]} <= ps:
+                res.ok(f"apply_query: `{norm(a)}` (decision with disjunctions)", "every alternative: one fitting type, or the old type is not among "
+                                                                                 "several and string+query is a search")
+            elif len(combos) > 1 and bad_alt is None and s_nodes:
+                res.violation([f.qualname, norm(a), "search test incomplete"],
+                              f"apply_query: the search test looks at {sorted(ps)} only; a search symbol given in the query (or in the "
+                              f"string) is not seen and the query is refused", f.relpath, a.lineno)
+            else:
+                res.violation([f.qualname, norm(a), "unguarded"], f"apply_query: `{norm(a)}` is not under a len(new_types) decision"
+                              + (f" (reachable with {[t for t, tr in bad_alt if tr][:3]} alone)" if bad_alt else ""), f.relpath, a.lineno)
     return res
 
 
